@@ -205,6 +205,10 @@ declarations:
       - decl: int area(const std::string &unit, int scale = 1)
       - decl: void accum(int *arr +dimension(..), int n)
       - decl: enum Tint { PALE, DEEP = 4 }
+      - decl: int visit(int (*fn)(int, double), int n)
+        options:
+          wrap_python: false
+          wrap_lua: false
     - decl: int other()
     - decl: void put(int a)
     - decl: void put(double a)
@@ -215,14 +219,17 @@ declarations:
   - decl: int inblock(int n)
 """
 ENUMERATED_OPTIONS = ("F_string_len_trim",)
-INTEGER_OPTIONS = {"F_assumed_rank_max": {"lib": 1, "ns": 2, "cls": 3, "blk": 4, "fn": 5, "fn2": 5, "fn3": 6, "en": 5}}   # a distinct value per level
-LEVELS = ["lib", "ns", "cls", "blk", "fn", "fn2", "fn3", "en"]
-TAGS = {"lib": "tL_", "ns": "tN_", "cls": "tC_", "blk": "tB_", "fn": "tF_", "fn2": "tG_", "fn3": "tH_", "en": "tE_"}
+INTEGER_OPTIONS = {"F_assumed_rank_max": {"lib": 1, "ns": 2, "cls": 3, "blk": 4, "fn": 5, "fn2": 5, "fn3": 6, "en": 5, "fn4": 5}}   # a distinct value per level
+LEVELS = ["lib", "ns", "cls", "blk", "fn", "fn2", "fn3", "en", "fn4"]
+TAGS = {"lib": "tL_", "ns": "tN_", "cls": "tC_", "blk": "tB_", "fn": "tF_", "fn2": "tG_", "fn3": "tH_", "en": "tE_", "fn4": "tI_"}
 # options whose value is text: a distinct template per level
 TEXT_OPTIONS = {"C_enum_member_template": {lv: "{C_prefix}{C_name_scope}%s{enum_member_name}" % TAGS[lv] for lv in TAGS},
-                "F_enum_member_template": {lv: "{F_name_scope}%s{enum_member_lower}" % TAGS[lv].lower() for lv in TAGS}}
+                "F_enum_member_template": {lv: "{F_name_scope}%s{enum_member_lower}" % TAGS[lv].lower() for lv in TAGS},
+                # names of the unnamed parameters of a callback's abstract interface
+                "F_abstract_interface_argument_template": {lv: "%s{index}" % TAGS[lv].lower().rstrip("_") for lv in TAGS}}
 # the leaf declarations an option can show on (the four container levels are always explored)
-LEAF_LEVELS = {"F_assumed_rank_max": ["fn3"], "C_enum_member_template": ["en"], "F_enum_member_template": ["en"]}
+LEAF_LEVELS = {"F_assumed_rank_max": ["fn3"], "C_enum_member_template": ["en"], "F_enum_member_template": ["en"],
+               "F_abstract_interface_argument_template": ["fn4"]}
 
 
 def levels_for(what):
@@ -237,7 +244,8 @@ def scope_nodes(d):
     fn2 = blk["declarations"][1]       # area: has default-argument clones
     fn3 = blk["declarations"][2]       # accum: assumed-rank argument, one Fortran specific per rank
     en = blk["declarations"][3]        # an enumeration: the member-name templates are options
-    return {"lib": d, "ns": ns, "cls": cls, "blk": blk, "fn": fn, "fn2": fn2, "fn3": fn3, "en": en}
+    fn4 = blk["declarations"][4]       # visit: a callback with unnamed parameters (abstract interface)
+    return {"lib": d, "ns": ns, "cls": cls, "blk": blk, "fn": fn, "fn2": fn2, "fn3": fn3, "en": en, "fn4": fn4}
 
 
 def leaves(d):
@@ -250,6 +258,7 @@ def leaves(d):
            (blk["declarations"][1], ["lib", "ns", "cls", "blk", "fn2"]),
            (blk["declarations"][2], ["lib", "ns", "cls", "blk", "fn3"]),
            (blk["declarations"][3], ["lib", "ns", "cls", "blk", "en"]),
+           (blk["declarations"][4], ["lib", "ns", "cls", "blk", "fn4"]),
            (cls["declarations"][2], ["lib", "ns", "cls"]),
            (cls["declarations"][3], ["lib", "ns", "cls"]),
            (cls["declarations"][4], ["lib", "ns", "cls"]),
@@ -800,7 +809,7 @@ def main():
         rep.inconc("identity test on a value this harness makes symbolic: " + ln)
     specs = [("harness.C14", "make_scope", {})]
     labels = ["util.Scope laws"]
-    for what in ("tag", "F_force_wrapper", "C_force_wrapper", "F_string_len_trim", "F_create_generic", "F_assumed_rank_max", "C_enum_member_template", "F_enum_member_template"):
+    for what in ("tag", "F_force_wrapper", "C_force_wrapper", "F_string_len_trim", "F_create_generic", "F_assumed_rank_max", "C_enum_member_template", "F_enum_member_template", "F_abstract_interface_argument_template"):
         specs.append(("harness.C14", "make_scope_pipe", dict(what=what)))
         labels.append("pipeline scoping of %s" % what)
     for i in range(len(ATTR_SHAPES)):
@@ -862,7 +871,7 @@ def main():
                               "Library/Namespace/Class/Block/FunctionNode.__init__ and default_format; FunctionNode.clone",
                               "FunctionNode.__init__ attrs/fattrs merge; declast.Parser.attribute; generate.VerifyAttrs",
                               "shroud.main.main_with_args (--option, --language), create_wrapper"],
-        "bounds": {"scope_chain_depth": 4, "pipeline_levels": LEVELS, "scoped_fields": ["format field tag (referenced from C_name_template)", "F_force_wrapper", "C_force_wrapper", "F_string_len_trim", "F_create_generic", "F_assumed_rank_max (a distinct integer per level)", "C_enum_member_template / F_enum_member_template (a distinct template per level)"],
+        "bounds": {"scope_chain_depth": 4, "pipeline_levels": LEVELS, "scoped_fields": ["format field tag (referenced from C_name_template)", "F_force_wrapper", "C_force_wrapper", "F_string_len_trim", "F_create_generic", "F_assumed_rank_max (a distinct integer per level)", "C_enum_member_template / F_enum_member_template / F_abstract_interface_argument_template (a distinct template per level)"],
                    "attribute_shapes": [s["bare"] for s in ATTR_SHAPES], "command_line_options": [o[0] for o in CMD_OPTIONS]},
         "solver": {"name": "z3 " + z3.get_version_string(), "queries": total.stats.queries, "solver_s": round(total.stats.solver_s, 2)},
         "reachability_twin_ok": twin_ok,
